@@ -148,6 +148,8 @@ class DyadCarrier(object):
         assert len(subscript) == self.ndim, "Invalid number of slices, must be 2"
         if self.shape[0] < 0 and self.shape[1] < 0:
             return DyadCarrier()
+        # Index lists behave as index arrays (pointwise selection), as in numpy
+        subscript = tuple(np.asarray(si) if isinstance(si, list) else si for si in subscript)
 
         usample = np.zeros(self.shape[0])[subscript[0]]
         vsample = np.zeros(self.shape[1])[subscript[1]]
